@@ -88,7 +88,7 @@ def _summary(hard, corr, name):
             win, dwin = sums.formal_sum_dom(h.ctx, C, z3.BoolVal(True), wt * z3.If(pm > 0, 1, 0))
             from pyvc.theory_np import round_half_even_t
 
-            h.ensures("pred_is_base_plus_weights_of_contests_with_positive_margin", pred.t == z3.ToReal(round_half_even_t((win + base.t) * 100)) / 100)
+            h.ensures("pred_is_base_plus_weights_of_contests_with_positive_margin", pred.t == z3.ToReal(round_half_even_t((win + base.t) * 100)) / 100, replay=lambda ev: {"target": "verif_replays:national_summary_weights_replay", "args": [bool(corr)], "check": "result['exc'] is None and result['ok']"})
         # ordering lower <= pred <= upper: the uncertainty terms Σ w*losses and Σ w*gains must be non-negative
         # (lemma sum_nonneg; its pointwise side condition is the real content: no contest may carry a NEGATIVE
         # potential loss or gain)
